@@ -308,7 +308,15 @@ impl ColumnBuffer {
         self.length += count;
     }
 
-    pub fn finalize(self, name: &str) -> Arc<Column> {
+    pub fn finalize(mut self, name: &str) -> Arc<Column> {
+        // Trailing NULLs do not grow the presence bitmap; readers that stream the bitmap in
+        // batches expect one bit per row.
+        if let Some(present) = self.present.as_mut() {
+            let bytes = self.length.div_ceil(8);
+            if present.len() < bytes {
+                present.resize(bytes, 0);
+            }
+        }
         match self.buffer {
             TypedBuffer::Empty => Arc::new(Column::null(name, self.length)),
             TypedBuffer::Int(buffer) => buffer.finalize(name, self.present),
